@@ -21,12 +21,16 @@ EXTENDS ViewsBase
 CONSTANTS Parsers,       \* handles the process holds on parsed files
           Addrs,         \* addresses the allocator hands out (reused after a release)
           ViewIds,
+          FilterSeq,     \* the filters views are created with
           Filters,       \* indices into FilterSeq
           MaxEvents,
           IdentityMemo
 
-\* a small pool of filters (every filter against every file is replayed from Views.tla)
-FilterSeq == << [mode |-> "include", S |-> {1, 2}], [mode |-> "exclude", S |-> {2}], [mode |-> "include", S |-> {2, 3, Unknown}] >>
+\* a small pool of filters for model checking (every filter against every file is replayed from Views.tla); the trace
+\* specification uses every filter
+PoolFilterSeq == << [mode |-> "include", S |-> {1, 2}], [mode |-> "exclude", S |-> {2}], [mode |-> "include", S |-> {2, 3, Unknown}] >>
+AllFilterSeq == SetToSeq(ViewSpace)
+AllFilters == 1..Len(AllFilterSeq)
 ASSUME Filters \subseteq 1..Len(FilterSeq)
 
 Dead == [alive |-> FALSE, doc |-> 0, addr |-> 0]
